@@ -105,6 +105,11 @@ macro_rules! dshape {
                 self.0 == o.0
             }
         }
+        impl Clone for $name {
+            fn clone(&self) -> Self {
+                $name(self.0)
+            }
+        }
         impl std::fmt::Debug for $name {
             fn fmt(&self, f: &mut std::fmt::Formatter<'_>) -> std::fmt::Result {
                 write!(f, "{}{:?}", stringify!($name), &self.0[..self.0.len().min(2)])
